@@ -51,9 +51,12 @@ CONSTANTS
   StubModes,     \* subset of {"none","inpkg","ext","find","find+ext"}: find_stubs_package and where the stubs are
   Layouts,       \* subset of {"flat","chain"}: p.a and p.b siblings / p.a a sub-package containing p.a.b
   Tops,          \* kinds of the top-level module p: py pyi so xc ns sofile missing
-  KidsA, KidsB,  \* kinds of the sub-modules a, b: py pyi so xc missing
+  KidsA, KidsB,  \* kinds of the sub-modules a, b: py pyi so xc missing both (both = x.py with its stub file x.pyi next to it)
                  \*   so = compiled, importable here (.so, tagged .so, .abi3.so, sourceless .pyc)
                  \*   xc = compiled for the finder, not importable by this CPython (.pyd, tagged .pyd, .pyo)
+  Submods,       \* subset of BOOLEAN: the `submodules` argument of load()
+  ObjSpecs,      \* how the package is named in the call: "name" ("p", try_relative_path=False), "relpath" ("p" with
+                 \* try_relative_path=True and the search directory as cwd), "abspath" (a pathlib.Path to the package directory)
   PathMuts,      \* what every executable module body does to sys.path before anything can fail:
                  \*   "none" | "inplace" (insert/append on the list it sees) | "rebind" (sys.path = [vendor, *sys.path])
   TopFaults, KidFaults, ExtFaults,   \* fault kinds tried on executable modules (always contain "none")
@@ -91,28 +94,30 @@ treevars == <<agent, members, loaded, todo, offered, skipped, nsparents, failure
 vars     == <<cfg, ctl, pathvars, impvars, treevars, outcome, lastev>>
 
 None == "none"
-Mods == {"p", "a", "b", "q", "s"}          \* s = the stubs of p (in-package __init__.pyi or the p-stubs package)
+Mods == {"p", "a", "b", "q", "s", "as", "bs"}   \* s = the stubs of p (in-package __init__.pyi or the p-stubs package);
+                                                \* as / bs = the stub file next to a.py / b.py (kind "both")
 
 \* ---- the case ------------------------------------------------------------------------------------
 Static == ~cfg.allow /\ ~cfg.force
 Bug == cfg.bug
 FileOf(m) ==
-  CASE m \in {"p", "a", "b"} -> cfg.file[m]
+  CASE m \in {"p", "a", "b"} -> (IF cfg.file[m] = "both" THEN "py" ELSE cfg.file[m])
     [] m = "q" -> IF cfg.extstyle = None THEN "missing" ELSE cfg.extkind
     [] OTHER -> "pyi"
 Compiled(m) == FileOf(m) \in {"so", "sofile", "xc"}
 Executable(m) == FileOf(m) \in {"py", "so", "sofile"}
 FaultOf(m) == IF m \in {"p", "a", "b", "q"} THEN cfg.fault[m] ELSE None
 Kids == {m \in {"a", "b"} : cfg.file[m] # "missing"}           \* files yielded by finder.submodules(p)
-Depth(m) == IF m = "b" /\ cfg.layout = "chain" THEN 2 ELSE 1
+          \cup (IF cfg.file.a = "both" THEN {"as"} ELSE {}) \cup (IF cfg.file.b = "both" THEN {"bs"} ELSE {})
+Depth(m) == IF m \in {"b", "bs"} /\ cfg.layout = "chain" THEN 2 ELSE 1
 
 \* ---- CPython: what the import system sees ----------------------------------------------------------
 PyKind(m) ==     \* exec: a file whose code runs on import; ns: a directory without such a file; absent
   CASE m = "p" -> IF cfg.file.p \in {"py", "so", "sofile"} THEN "exec"
                   ELSE IF cfg.file.p \in {"pyi", "ns", "xc"} THEN "ns" ELSE "absent"
-    [] m = "a" -> IF cfg.file.a \in {"py", "so"} THEN "exec"
+    [] m = "a" -> IF FileOf("a") \in {"py", "so"} THEN "exec"
                   ELSE IF cfg.layout = "chain" /\ (cfg.file.a \in {"pyi", "xc"} \/ cfg.file.b # "missing") THEN "ns" ELSE "absent"
-    [] m = "b" -> IF cfg.file.b \in {"py", "so"} THEN "exec" ELSE "absent"
+    [] m = "b" -> IF FileOf("b") \in {"py", "so"} THEN "exec" ELSE "absent"
     [] m = "q" -> IF Executable("q") THEN "exec" ELSE "absent"
     [] OTHER -> "absent"
 PyChain(m) ==    \* `import x.y.z` imports x, x.y, x.y.z in that order
@@ -121,7 +126,7 @@ PyChain(m) ==    \* `import x.y.z` imports x, x.y, x.y.z in that order
     [] m = "b" -> IF cfg.layout = "chain" THEN <<"p", "a", "b">> ELSE <<"p", "b">>
     [] OTHER -> <<m>>
 PyParent(m) == CASE m = "a" -> "p" [] m = "b" -> (IF cfg.layout = "chain" THEN "a" ELSE "p") [] OTHER -> None
-PyTarget(m) == IF m = "s" THEN "p" ELSE m         \* the stubs are inspected by importing the package itself
+PyTarget(m) == CASE m = "s" -> "p" [] m = "as" -> "a" [] m = "bs" -> "b" [] OTHER -> m    \* stubs are inspected by importing the module itself
 
 \* walk the chain up to the first module whose body must run: modules already in sys.modules are
 \* skipped, namespace directories are imported without running anything, an absent one fails
@@ -187,7 +192,7 @@ NextSubPc(td, ag, ld) == IF td # {} THEN "Submodule" ELSE AfterSubsPc(ag, ld)
 
 \* a module object of role r has been built for m
 Built(m, r, ag) ==
-  CASE r = "top" -> LET td == IF m = "p" THEN Kids ELSE {}
+  CASE r = "top" -> LET td == IF m = "p" /\ cfg.submodules THEN Kids ELSE {}
                         ld == loaded \cup {Pkg}
                     IN [pc |-> NextSubPc(td, ag, ld), loaded |-> ld, todo |-> td, members |-> members]
     [] r = "sub" -> [pc |-> NextSubPc(todo, ag, loaded), loaded |-> loaded, todo |-> todo, members |-> members \cup {m}]
@@ -201,7 +206,7 @@ ResolvePc1(ag, ld) ==
   IF cfg.extstyle = "star" /\ HolderIn(ag) /\ "q" \notin ld /\ Allowed THEN "ResolveWild" ELSE ResolvePc2(ag, ld)
 
 \* ---- initial states: the case space ------------------------------------------------------------------
-FaultsFor(kind, set) == IF kind \in {"py", "so", "sofile"} THEN set ELSE {None}
+FaultsFor(kind, set) == IF kind \in {"py", "so", "sofile", "both"} THEN set ELSE {None}
 AllowOf(x) == x \in {"a-", "af"}
 ForceOf(x) == x \in {"-f", "af"}
 ResolveOf(x) == x \in {"true", "false", "none"}
@@ -214,7 +219,7 @@ InitCase ==
         kb \in (IF top \in {"sofile", "missing"} THEN {"missing"} ELSE KidsB) :
      \E es \in (IF top \in {"py", "pyi"} THEN ExtStyles ELSE {None}) :
      \E ep \in (IF es = None THEN {FALSE} ELSE ExtPrivates), ek \in (IF es = None THEN {"missing"} ELSE ExtKinds) :
-     \E bg \in Bugs, pm \in PathMuts :
+     \E bg \in Bugs, pm \in PathMuts, sb \in Submods, os \in ObjSpecs :
      \E fp \in FaultsFor(top, TopFaults), fa \in FaultsFor(ka, KidFaults), fb \in FaultsFor(kb, KidFaults),
         fq \in FaultsFor(IF es = None THEN "missing" ELSE ek, ExtFaults) :
        /\ (ka = "missing" /\ kb = "missing") => lay = "flat"          \* the layouts coincide
@@ -224,7 +229,7 @@ InitCase ==
                  findstubs |-> FindStubsOf(sm), stubs |-> StubsOf(sm), layout |-> lay,
                  file |-> [p |-> top, a |-> ka, b |-> kb],
                  extstyle |-> es, extprivate |-> ep, extkind |-> ek,
-                 fault |-> [p |-> fp, a |-> fa, b |-> fb, q |-> fq], pathmut |-> pm, bug |-> bg]
+                 fault |-> [p |-> fp, a |-> fa, b |-> fb, q |-> fq], pathmut |-> pm, submodules |-> sb, objspec |-> os, bug |-> bg]
 InitRun ==
   /\ pc = "Construct" /\ lstack = <<>> /\ cur = None /\ role = None /\ dyn = NoDyn /\ exc = None
   /\ sysPath = "orig" /\ savedPath = <<>> /\ dirty = {} /\ sysModules = {} /\ executed = {}
@@ -257,10 +262,15 @@ ResolveExternal ==
 
 FindSpec ==
   /\ pc = "FindSpec"
-  /\ LET r == FindRes(Pkg) IN
+  /\ LET r == IF Pkg = "p" /\ cfg.objspec = "abspath" /\ cfg.file.p \in {"sofile", "missing"}
+              THEN [res |-> "nofile", stubs |-> FALSE, viastubs |-> FALSE]         \* _module_name_path: the path does not exist
+              ELSE FindRes(Pkg) IN
      /\ Ev([ev |-> "FindSpec", pkg |-> Pkg, res |-> r.res, stubs |-> r.stubs, viastubs |-> r.viastubs])
      /\ lstack' = [lstack EXCEPT ![Len(lstack)] = [@ EXCEPT !.res = r.res, !.stubs = r.stubs, !.viastubs = r.viastubs]]
-     /\ IF r.res = "notfound"
+     /\ IF r.res = "nofile"
+        THEN /\ pc' = "LoadRaise" /\ exc' = "FileNotFoundError"                   \* not a ModuleNotFoundError: escapes load() as it is
+             /\ UNCHANGED <<cur, role, dyn>>
+        ELSE IF r.res = "notfound"
         THEN IF Static /\ Bug # "noReraise"
              THEN /\ pc' = "LoadRaise" /\ exc' = "ModuleNotFoundError"        \* `raise` in the except clause of load()
                   /\ UNCHANGED <<cur, role, dyn>>
@@ -305,7 +315,7 @@ Submodule ==
        /\ todo' = todo \ {m} /\ offered' = offered \cup {m}
        /\ cur' = m /\ role' = "sub"
        /\ Ev([ev |-> "Submodule", m |-> m])
-       /\ IF Depth(m) = 2 /\ "a" \notin members /\ "a" \notin nsparents
+       /\ IF Depth(m) = 2 /\ members \cap {"a", "as"} = {} /\ "a" \notin nsparents      \* p.get_member("a") raises KeyError
           THEN IF agent["p"] = "create"                        \* namespace package: intermediate namespace module
                THEN pc' = "CreateNsParent" /\ exc' = exc
                ELSE pc' = "SkipSubmodule" /\ exc' = "unimportable"   \* UnimportableModuleError
@@ -520,9 +530,10 @@ Balanced == /\ Len(savedPath) <= 1
 ExecOnlyUnderSwap == [][executed' # executed => (sysPath # "orig" /\ savedPath # <<>> /\ ~Static)]_vars
 \* (5) the only ways out: the documented exception classes; SystemExit never escapes
 OutcomeLegal ==
-  /\ outcome \in {None, "Return", "ModuleNotFoundError", "ImportError", "LoadingError"}
+  /\ outcome \in {None, "Return", "ModuleNotFoundError", "ImportError", "LoadingError", "FileNotFoundError"}
   /\ (outcome = "ModuleNotFoundError") => Static          \* re-raised iff inspection is disallowed
-  /\ (Static /\ pc = "Done" /\ FindRes("p").res = "notfound") => outcome = "ModuleNotFoundError"
+  /\ (outcome = "FileNotFoundError") => (cfg.objspec = "abspath" /\ executed = {})    \* documented for Path arguments
+  /\ (Static /\ pc = "Done" /\ FindRes("p").res = "notfound") => outcome \in {"ModuleNotFoundError", "FileNotFoundError"}
 TypeOK ==
   /\ sysPath \in {"orig", "search", "alien"} /\ dirty \subseteq {"orig", "search", "alien"} /\ sysModules \subseteq {"p", "a", "b", "q"} /\ executed \subseteq {"p", "a", "b", "q"}
   /\ Len(lstack) <= 2 /\ skipped \subseteq offered /\ members \subseteq offered
